@@ -80,6 +80,14 @@ Definition pfx_start (tk : token) : bool :=
   (is_kind tk TkOperator || is_kind tk TkBracket) && (val_is tk "." || val_is tk "?." || val_is tk "[").
 Definition is_keyword (v : string) : bool := String.eqb v "true" || String.eqb v "false" || String.eqb v "nil".
 
+Definition same_kv (a b : token) : bool := tkind_eqb (tkind_of a) (tkind_of b) && String.eqb (tval a) (tval b).
+Fixpoint all2 {A : Type} (f : A -> A -> bool) (l1 l2 : list A) : bool :=
+  match l1, l2 with
+  | [], [] => true
+  | a :: r1, b :: r2 => f a b && all2 f r1 r2
+  | _, _ => false
+  end.
+
 Section Norm.
   Variable g : grammar.
   Variable o : oracles.
@@ -224,6 +232,52 @@ Section Norm.
   (* ---------------------------------------------------------------- the reference grammar's language *)
   Definition ref_parses (ts : list token) (t : expr) : Prop :=
     exists c, printable g fmt_int fmt_float o c t /\ normalize ts = print_any g fmt_int fmt_float c t.
+
+  (* `plain ts`: the normalisation changes nothing but locations (same length, same kinds and values):
+     no implicit pointer, no trailing comma, no Operator-kind member name, no Identifier/Number bare key,
+     no `.` after `?.` in a chain, canonical number spellings, nothing after EOF *)
+  Definition plain (ts : list token) : bool := all2 same_kv (normalize ts) ts.
+
+  (* ---------------------------------------------------------------- the oracle, computed.
+     A pair of parentheses is identified by the interval of NON-parenthesis tokens it encloses; the node at
+     path q is identified by the interval of the pair that the probe oracle (one additional pair at q) adds to
+     the minimal printing; `oracle_for target t q` = how many more pairs with that interval the target has
+     than the minimal printing.  (The soundness proof constructs the oracle bottom-up; this function computes
+     the same thing from the result and is used in the Examples of Props/C11.v.) *)
+  Fixpoint pairs_go (ts : list token) (k : nat) (stack : list nat) (acc : list (nat * nat)) : list (nat * nat) :=
+    match ts with
+    | [] => acc
+    | tk :: r =>
+        if tok_is tk TkBracket ["("%string] then pairs_go r k (k :: stack) acc
+        else if tok_is tk TkBracket [")"%string] then
+          match stack with lo :: s' => pairs_go r k s' ((lo, k) :: acc) | [] => pairs_go r k [] acc end
+        else pairs_go r (S k) stack acc
+    end.
+  Definition paren_pairs (ts : list token) : list (nat * nat) := pairs_go ts 0 [] [].
+  Definition pair_eqb (a b : nat * nat) : bool := Nat.eqb (fst a) (fst b) && Nat.eqb (snd a) (snd b).
+  Definition count_pair (p : nat * nat) (l : list (nat * nat)) : nat := List.length (filter (pair_eqb p) l).
+  Fixpoint path_eqb (a b : list nat) : bool :=
+    match a, b with
+    | [], [] => true
+    | x :: r, y :: r' => Nat.eqb x y && path_eqb r r'
+    | _, _ => false
+    end.
+  Definition probe (q : list nat) : poracle := fun path => if path_eqb path q then 1%nat else 0%nat.
+  Definition extra_pair (big small : list (nat * nat)) : option (nat * nat) :=
+    find (fun p => Nat.ltb (count_pair p small) (count_pair p big)) big.
+
+  Definition oracle_for (target : list token) (t : expr) : poracle := fun q =>
+    let base := paren_pairs (print_any g fmt_int fmt_float no_extra t) in
+    match extra_pair (paren_pairs (print_any g fmt_int fmt_float (probe q) t)) base with
+    | Some iv => (count_pair iv (paren_pairs target) - count_pair iv base)%nat
+    | None => 0%nat
+    end.
+
+  Definition oracle_of_tokens (ts : list token) : poracle :=
+    match parse g o ts with
+    | ROk t => oracle_for (normalize ts) t
+    | _ => no_extra
+    end.
 
   (* the full statement (false of the pinned tree: p1, p2, p3 are accepted) *)
   Definition parse_sound_full_statement : Prop :=
